@@ -439,6 +439,31 @@ func c12Client(c *Ctx) {
 	fmh := c.Calls(f.SSA, Invoke("DHStoreAPI.FindMultihash", Any(), Any(), Call("dhash.SecondMultihash", mh)))
 	c.Check(len(fmh) == 1, "C12.D5-client-workflow", key+" › index queried with the second hash", f.SSA.Pos(), "FindMultihash(SecondMultihash(mh))", "the index is not queried with the second hash of the requested multihash")
 	dvk := c.Calls(f.SSA, Call("dhash.DecryptValueKey", Any(), mh))
+	if len(dvk) == 0 {
+		// the per-value-key work is a step helper of FindAsync (its loop body): the workflow is followed there, the
+		// helper's multihash parameter standing for the queried one it is handed
+		for _, st := range c.CallsInl(f.SSA, Call("dhash.DecryptValueKey"), 2) {
+			h := topFunc(st.In.Parent())
+			if len(st.Via) != 1 || h == f.SSA {
+				continue
+			}
+			if sites, known := c.staticCallSites(h); !known || len(sites) != 1 || topFunc(sites[0].Parent()) != f.SSA {
+				continue
+			}
+			obj, _ := h.Object().(*types.Func)
+			hf := c.fnOf(obj)
+			outer := st.Via[0]
+			if hf == nil {
+				continue
+			}
+			for i, a := range outer.Common().Args {
+				if a == ssa.Value(f.SSA.Params[2]) && i < len(h.Params) {
+					f, mh = hf, Op("param", h.Params[i].Name())
+					dvk = c.Calls(f.SSA, Call("dhash.DecryptValueKey", Any(), mh))
+				}
+			}
+		}
+	}
 	if len(dvk) != 1 {
 		c.Bad("C12.D5-client-workflow", key+" › value key decrypted with the queried multihash", f.SSA.Pos(), "DecryptValueKey is not called with the queried multihash as passphrase")
 		return
@@ -503,14 +528,30 @@ func c12Client(c *Ctx) {
 	}
 	c.Check(nUse == 1, "C12.D5-client-workflow", key+" › one expansion site", f.SSA.Pos(), "one provider expansion", "expected one GetResults call")
 	// metadata-only result built from the same values
-	for _, ss := range c.SendSites(findClientPkgOf(f)) {
-		if topFunc(ss.Fn) != f.SSA {
+	sites := c.SendSites(findClientPkgOf(f))
+	// (sends of the step helper itself, before they are lifted to its caller)
+	instrsDeep(f.SSA, func(g *ssa.Function, in ssa.Instruction) {
+		switch in := in.(type) {
+		case *ssa.Send:
+			sites = append(sites, SendSite{Fn: g, At: in, Chan: c.E(in.Chan), Val: c.E(in.X), Pos: in.Pos()})
+		case *ssa.Select:
+			for _, st := range in.States {
+				if st.Send != nil {
+					sites = append(sites, SendSite{Fn: g, At: in, Chan: c.E(st.Chan), Val: c.E(st.Send), Pos: in.Pos(), InSelect: true})
+				}
+			}
+		}
+	})
+	seenSend := map[ssa.Instruction]bool{}
+	for _, ss := range sites {
+		if topFunc(ss.Fn) != f.SSA || seenSend[ss.At] {
 			continue
 		}
 		v := ss.Val
 		if v.Op != "complit" {
 			continue
 		}
+		seenSend[ss.At] = true
 		fs := c.CellFields(v)
 		okF := fs["ContextID"] != nil && Same(fs["ContextID"], ctxID) && fs["Metadata"] != nil && Same(fs["Metadata"], md)
 		g := mdOK(ss.At)
@@ -554,7 +595,7 @@ func c12Client(c *Ctx) {
 	} else {
 		c.Check(len(acceptEnc(pc, pc.Funcs("ipnicheck/testdata/posex"))) == 1, "C12.D5-client-workflow", "positive example fires (Accept-Encoding)", token.NoPos, "rule found the seeded hand-set Accept-Encoding (and none in find/client)", "rule did not find its positive example: it would pass vacuously")
 	}
-	c.Floor("C12.D5-client-workflow", 9)
+	c.Floor("C12.D5-client-workflow", 8) // (the two store lookups may share one reading helper)
 }
 
 func c12ValueKey(c *Ctx) {
